@@ -17,7 +17,7 @@ if HERE not in sys.path:
     sys.path.insert(0, HERE)
 
 
-class OpTimeout(Exception):
+class OpTimeout(BaseException):   # BaseException: the library catches Exception around solver calls
     pass
 
 
@@ -144,6 +144,22 @@ def exec_ops(case, ops, op_timeout=60, emit=None):
                     signal.alarm(0)
                     rec["status"] = "returned"
                     rec["mismatch"] = {k: [str(x) for x in v] for k, v in r.items()}
+                elif kind == "mismatch_many":
+                    res = []
+                    for rows in op["rows_list"]:
+                        cand = ir.decode_sequence(case, rows)
+                        try:
+                            with ir.quiet():
+                                r = sp.sample_mismatch_experiment(built.block, cand)
+                            res.append({"status": "returned", "keys": sorted(r.keys())})
+                        except OpTimeout:
+                            raise
+                        except BaseException as e:
+                            res.append({"status": "raised", "exc": type(e).__name__, "msg": str(e)[:200],
+                                        "site": _exc_site(e.__traceback__)})
+                    signal.alarm(0)
+                    rec["status"] = "returned"
+                    rec["results"] = res
                 elif kind in ("print", "tabulate", "to_tuples", "to_dicts", "save_csv"):
                     exps = last_exps if last_exps is not None else []
                     with ir.quiet() as buf:
